@@ -1,3 +1,4 @@
+import Agd.Tie.TrC19
 import Agd.Model.LinkIP
 import Agd.Lemmas.LinkIP
 import Agd.Tie.C19
@@ -798,3 +799,35 @@ end Agd.LinkIP
 #print axioms Agd.LinkIP.interleaved_forwards_only_api_with_real_address
 #print axioms Agd.LinkIP.shared_url_mixes_counterexample
 #print axioms Agd.LinkIP.shared_header_mixes_counterexample
+
+#print axioms Agd.Tie.TrC19.translation_complete
+#print axioms Agd.Tie.TrC19.ofList_eq_iff
+#print axioms Agd.Tie.TrC19.trimPrefix_slash
+#print axioms Agd.Tie.TrC19.cutList_slash
+#print axioms Agd.Tie.TrC19.cut_shorter
+#print axioms Agd.Tie.TrC19.splitListN_slash
+#print axioms Agd.Tie.TrC19.splitN_slash
+#print axioms Agd.Tie.TrC19.goIndex_nat
+#print axioms Agd.Tie.TrC19.goRange_any
+#print axioms Agd.Tie.TrC19.shouldProxyGet_spec
+#print axioms Agd.Tie.TrC19.shouldProxyGet_nil
+#print axioms Agd.Tie.TrC19.shouldProxyPost_spec
+#print axioms Agd.Tie.TrC19.shouldProxyPost_nil
+#print axioms Agd.Tie.TrC19.any_ext
+#print axioms Agd.Tie.TrC19.shouldProxy_spec
+#print axioms Agd.Tie.TrC19.parts_tr
+#print axioms Agd.Tie.TrC19.dec_beq
+#print axioms Agd.Tie.TrC19.idx_map
+#print axioms Agd.Tie.TrC19.getShape_map
+#print axioms Agd.Tie.TrC19.postShape_map
+#print axioms Agd.Tie.TrC19.dotSeg_map
+#print axioms Agd.Tie.TrC19.shouldProxy_tr
+#print axioms Agd.Tie.TrC19.shouldProxy_total
+#print axioms Agd.Tie.TrC19.serve_total
+#print axioms Agd.Tie.TrC19.serve_contacts_backend_iff
+#print axioms Agd.Tie.TrC19.serve_local
+#print axioms Agd.Tie.TrC19.serve_scrubs_then_sets_peer
+#print axioms Agd.Tie.TrC19.serve_bad_peer_500
+#print axioms Agd.Tie.TrC19.serve_class_tr
+#print axioms Agd.Tie.TrC19.rewrite_resets_proxy_headers
+#print axioms Agd.Tie.TrC19.modifyResponse_ok
